@@ -103,6 +103,20 @@ pub struct Http1Parser {
     config: Http1Config,
 }
 
+/// The part of `data` up to and including the first blank line (CRLF CRLF or LF LF, whichever
+/// comes first); all of `data` when there is no blank line yet.
+fn head_of(data: &[u8]) -> &[u8] {
+    let crlf = data.windows(4).position(|w| w == b"\r\n\r\n").map(|i| i.saturating_add(4));
+    let lf = data.windows(2).position(|w| w == b"\n\n").map(|i| i.saturating_add(2));
+    let end = match (crlf, lf) {
+        (Some(a), Some(b)) => a.min(b),
+        (Some(a), None) => a,
+        (None, Some(b)) => b,
+        (None, None) => data.len(),
+    };
+    data.get(..end).unwrap_or(data)
+}
+
 impl Http1Parser {
     pub fn new() -> Self {
         Self { config: Http1Config::default() }
@@ -114,7 +128,9 @@ impl Http1Parser {
     pub fn parse_request(&self, data: &[u8]) -> Result<Option<Http1Request>, Http1ParseError> {
         let start_time = Instant::now();
 
-        let data_str = std::str::from_utf8(data).map_err(|_| Http1ParseError::InvalidUtf8)?;
+        // Only the head is text: whatever follows the blank line (the body) may be arbitrary
+        // binary data and must not decide whether the head can be decoded
+        let data_str = std::str::from_utf8(head_of(data)).map_err(|_| Http1ParseError::InvalidUtf8)?;
 
         if !data_str.contains("\r\n\r\n") && !data_str.contains("\n\n") {
             return Ok(None);
@@ -206,7 +222,9 @@ impl Http1Parser {
     pub fn parse_response(&self, data: &[u8]) -> Result<Option<Http1Response>, Http1ParseError> {
         let start_time = Instant::now();
 
-        let data_str = std::str::from_utf8(data).map_err(|_| Http1ParseError::InvalidUtf8)?;
+        // Only the head is text: whatever follows the blank line (the body) may be arbitrary
+        // binary data and must not decide whether the head can be decoded
+        let data_str = std::str::from_utf8(head_of(data)).map_err(|_| Http1ParseError::InvalidUtf8)?;
 
         if !data_str.contains("\r\n\r\n") && !data_str.contains("\n\n") {
             return Ok(None);
